@@ -197,6 +197,62 @@ def run(ctx):
             ctx.counterexample('compiled matcher is mutable', {'pattern': p})
         except AttributeError:
             pass
+    # ---- matchers that compare equal are interchangeable: same hash, same verdict on every probe --------------------
+    import tempfile as _tf
+    import shutil as _sh
+    eqroot = os.path.realpath(_tf.mkdtemp(prefix='c19eq_'))
+    try:
+        os.makedirs(os.path.join(eqroot, 'data', 'sub'))
+        for n in ('data/a.txt', 'data/sub/b.txt', 'top.txt'):
+            open(os.path.join(eqroot, n), 'w').close()
+        pats_eq = ['*.txt', 'data/*.txt', '**/*.txt', eqroot + '/data/*.txt', eqroot + '/*', eqroot + '/data/**', 'data/', '[ad]*', '!*.txt', '*']
+        flags_eq = [0, Gm.REALPATH, Gm.GLOBSTAR, Gm.GLOBSTAR | Gm.REALPATH, Gm.GLOBSTAR | Gm.REALPATH | Gm.FOLLOW, Gm.GLOBSTARLONG | Gm.REALPATH, Gm.NEGATE, Gm.DOTGLOB,
+                    Gm.IGNORECASE, Gm.MATCHBASE, Gm.NODIR, Gm.NODIR | Gm.REALPATH]
+        probes = ['data/a.txt', 'data/missing.txt', 'data/sub/b.txt', eqroot + '/data/a.txt', eqroot + '/data/missing.txt', eqroot + '/top.txt', eqroot + '/data',
+                  'top.txt', 'TOP.TXT', '.h.txt', 'data', 'data/', 'x/y/top.txt']
+        ms = []
+        for pp in pats_eq:
+            for ff in flags_eq:
+                for rep in range(2):
+                    ms.append((pp, ff, 'glob', Gm.compile(pp, flags=ff)))
+            for ff in (0, Fm.IGNORECASE, Fm.DOTMATCH, Fm.NEGATE):
+                ms.append((pp, ff, 'fnmatch', Fm.compile(pp, flags=ff)))
+
+        def verdicts(m):
+            out = []
+            for n in probes:
+                try:
+                    out.append(_match_rd(m, n))
+                except Exception as ex:
+                    out.append(type(ex).__name__)
+            return out
+
+        def _match_rd(m, n):
+            try:
+                return m.match(n, root_dir=eqroot)
+            except TypeError:
+                return m.match(n)
+        vs = [verdicts(m[3]) for m in ms]
+        for i in range(len(ms)):
+            for j in range(i + 1, len(ms)):
+                evals += 1
+                a, b = ms[i][3], ms[j][3]
+                same_src = ms[i][:3] == ms[j][:3]
+                if same_src and not (a == b and hash(a) == hash(b) and not (a != b)):
+                    ctx.counterexample('two matchers compiled from the same pattern and flags are not equal / hash-equal', {'pattern': ms[i][0], 'flags': ms[i][1], 'api': ms[i][2]})
+                    break
+                if a == b and (vs[i] != vs[j] or hash(a) != hash(b) or (a != b)):
+                    k = next((x for x in range(len(probes)) if vs[i][x] != vs[j][x]), None)
+                    ctx.counterexample('%s.compile(%r, %s) == %s.compile(%r, %s) but %s' % (
+                        ms[i][2], ms[i][0], corr.flag_names(ms[i][1]), ms[j][2], ms[j][0], corr.flag_names(ms[j][1]),
+                        ('they disagree on %r (%r vs %r)' % (probes[k], vs[i][k], vs[j][k])) if k is not None else 'their hashes differ or != also holds'),
+                        {'a': [ms[i][0], corr.flag_names(ms[i][1]), ms[i][2]], 'b': [ms[j][0], corr.flag_names(ms[j][1]), ms[j][2]]})
+                    break
+            else:
+                continue
+            break
+    finally:
+        _sh.rmtree(eqroot, ignore_errors=True)
     # ---- REALPATH answers follow the file system, not earlier calls ------------------------------------------------
     tmp = tempfile.mkdtemp(prefix='c19_')
     try:
